@@ -35,6 +35,14 @@ Definition text_of (msg : str) : str :=
   | None => []
   end.
 
+(** loadRawMsg: the reconstructed text is used as it is; only a text without
+    any CRLF has its LFs turned into CRLF
+      if !strings.Contains(rawMsg, "\r\n") { rawMsg = strings.ReplaceAll(rawMsg, "\n", "\r\n") }
+    Every reconstruction writes its header lines with CRLF, so part content
+    (bare LF, lone CR included) reaches BODY[] byte for byte. *)
+Definition load_raw (recon : str) : str :=
+  if contains recon crlf then recon else replace_byte recon LF crlf.
+
 (** RFC822.SIZE: len(msg) *)
 Definition size_of (msg : str) : nat := length msg.
 
